@@ -868,10 +868,13 @@ func (ctx *RequestContext) ResetWithoutConn() {
 	ctx.fullPath = ""
 	ctx.Keys = nil
 
+	// Finished() may be asked from a goroutine the handler started
+	ctx.finishedMu.Lock()
 	if ctx.finished != nil {
 		close(ctx.finished)
 		ctx.finished = nil
 	}
+	ctx.finishedMu.Unlock()
 
 	ctx.Request.ResetWithoutConn()
 	ctx.Response.Reset()
